@@ -82,6 +82,20 @@ func VerifH264Stap() {
 	w := &verifRecWriter{}
 	dp := verifNewH264(w)
 	ts := symapi.Uint32("ts")
+	// the packet may arrive cut short by 1..2 bytes: the last unit is then truncated and must
+	// not be emitted (neither short nor padded); complete units before it may be
+	if cut := symapi.IntRange("truncatedBy", 0, 2); cut > 0 {
+		if cut >= len(pkt)-1 {
+			return
+		}
+		dp.Depacketize(verifPkt(pkt[:len(pkt)-cut], symapi.Uint16("seq"), ts))
+		symapi.Assert(len(w.frames) < u, "truncated-stap-unit-never-emitted")
+		for i := 0; i < len(w.frames); i++ {
+			symapi.Assert(verifEqBytes(w.frames[i].Payload, nals[i]), "stap-units-before-the-truncation-identical")
+		}
+		symapi.Reach("truncated")
+		return
+	}
 	dp.Depacketize(verifPkt(pkt, symapi.Uint16("seq"), ts))
 	symapi.Assert(len(w.frames) == u, "stap-frame-count")
 	for i := 0; i < u && i < len(w.frames); i++ {
@@ -227,6 +241,15 @@ func VerifH265Ap() {
 	}
 	w := &verifRecWriter{}
 	dp := verifNewH265(w)
+	if cut := symapi.IntRange("truncatedBy", 0, 2); cut > 0 {
+		dp.Depacketize(verifPkt(pkt[:len(pkt)-cut], symapi.Uint16("seq"), symapi.Uint32("ts")))
+		symapi.Assert(len(w.frames) < u, "truncated-ap-unit-never-emitted")
+		for i := 0; i < len(w.frames); i++ {
+			symapi.Assert(verifEqBytes(w.frames[i].Payload, nals[i]), "ap-units-before-the-truncation-identical")
+		}
+		symapi.Reach("truncated")
+		return
+	}
 	dp.Depacketize(verifPkt(pkt, symapi.Uint16("seq"), symapi.Uint32("ts")))
 	symapi.Assert(len(w.frames) == u, "ap-frame-count")
 	for i := 0; i < u && i < len(w.frames); i++ {
